@@ -2,6 +2,9 @@
 
 from __future__ import annotations
 
+import itertools as it
+from fractions import Fraction
+
 import numpy as np
 import z3
 
@@ -20,8 +23,7 @@ def tasks(tier):
     t += [("t_poles", {"ref_axes": ra}) for ra in REF_AXES]
     t += [("t_lambert", {})]
     t += [("t_density", {"kernel": k, "axial": True}) for k in KERNELS]
-    if tier == "thorough":
-        t += [("t_density", {"kernel": k, "axial": False}) for k in KERNELS]
+    t += [("t_density", {"kernel": k, "axial": False}) for k in (KERNELS if tier == "thorough" else ("kamb_count", "linear_inverse_kamb", "exponential_kamb"))]
     return t
 
 
@@ -244,6 +246,29 @@ def t_lambert(sess):
     sample(sess, obligation="lambert", paths=len(paths))
 
 
+_UNIT_POOL = [(Fraction(3, 5), Fraction(4, 5), Fraction(0)), (Fraction(0), Fraction(0), Fraction(1)), (Fraction(2, 7), Fraction(3, 7), Fraction(6, 7)),
+              (Fraction(-1, 9), Fraction(4, 9), Fraction(8, 9)), (Fraction(2, 3), Fraction(-2, 3), Fraction(1, 3)), (Fraction(-6, 11), Fraction(2, 11), Fraction(-9, 11)),
+              (Fraction(1), Fraction(0), Fraction(0)), (Fraction(12, 13), Fraction(0), Fraction(-5, 13))]
+
+
+def _reach_density(sess, name, pc, path=None):
+    """Reachability witness by concretisation: exact rational unit vectors for the two data are substituted into the
+    path condition (z3 only has to evaluate it); the solver search is the fall-back."""
+    conj = z3.And(*[c if isinstance(c, z3.ExprRef) else z3.BoolVal(bool(c)) for c in pc]) if pc else z3.BoolVal(True)
+    # square roots of rational constants (uninterpreted constants with s*s = c, s >= 0) become exact algebraic numbers
+    roots = []
+    if path is not None:
+        for args, r, _ in path.uf_apps.get("sqrt", []):
+            if z3.is_rational_value(args[0]):
+                roots.append((r, z3.Sqrt(args[0])))
+    for a, b in list(it.permutations(_UNIT_POOL[:5], 2)):
+        sub = roots + [(z3.Real(f"d0{c}"), z3.Q(v.numerator, v.denominator)) for c, v in zip("xyz", a)] + [(z3.Real(f"d1{c}"), z3.Q(v.numerator, v.denominator)) for c, v in zip("xyz", b)]
+        if z3.is_true(z3.simplify(z3.substitute(conj, *sub))):  # ground formula: evaluated exactly (algebraic numbers included)
+            sess.reach.append(solve.QueryResult(name, "sat", None, 0.0, {"witness": "exact rational data " + str([tuple(map(str, a)), tuple(map(str, b))])}))
+            return True
+    return sess.satisfiable(name, pc).verdict == "sat"
+
+
 def t_density(sess, kernel, axial):
     mods = pydrex_modules()
     stats, geo = mods["stats"], mods["geometry"]
@@ -303,7 +328,7 @@ def t_density(sess, kernel, axial):
         for ob in other:
             sess.prove(f"{pt}: {ob.kind} cannot happen at `{(ob.site or ('', '?'))[1]}`", ob.pc, ob.cond)
         if reached < 1:
-            reached += sess.satisfiable(f"{pt}: reach", pc).verdict == "sat"
+            reached += _reach_density(sess, f"{pt}: reach", pc, p)
         Tn = np.asarray(T, dtype=object)
         sess.prove(f"{pt}: estimates are non-negative", pc, z3.And(*[(R(t) >= 0).z3() for t in Tn.flat]))
         inside = all(float(R(a).v) ** 2 + float(R(b).v) ** 2 <= 1 + 1e-12 for a, b in zip(np.asarray(X, dtype=object).flat, np.asarray(Y, dtype=object).flat))
